@@ -266,6 +266,22 @@ def run_case(case):
                     res.fail("block_identity", site, "MADEMoG: block %d of sample(n, context, batch_size=%r) does not follow the mixture conditioned on context "
                              "row %d (KS %.4f > %.4f, %d rows)" % (i, bsz, i, d, thr, rows), bs=str(bsz))
                     return res
+        if kind == "bernoulli" and ctx is not None and rows >= 2:
+            # n draws PER context row: two rows with the same probabilities must not receive the same random bits
+            D_ = int(np.prod(ev)) if ev else 1
+            n_ = max(2, (96 + D_ - 1) // D_)
+            same_ctx = ctx[:1].expand(rows, -1).contiguous() * 0.2            # p near 1/2 in every coordinate
+            with torch.no_grad():
+                bsz = [None, 1, 3][case["seed"] % 3]
+                sb = obj.sample(n_, same_ctx, batch_size=bsz) if bsz else obj.sample(n_, same_ctx)
+            if list(sb.shape) != [rows, n_] + ev:
+                res.fail("sample_shape", site, "Bernoulli sample shape %s, want %s" % (list(sb.shape), [rows, n_] + ev))
+                return res
+            if torch.equal(sb[0], sb[1]):
+                res.fail("rows_share_randomness", site, "sample(%d, context) with two identical context rows returns bit-identical blocks "
+                         "(%d fair-ish coin flips per row)" % (n_, n_ * D_))
+                return res
+            res.labels.append("bernoulli_rows_independent")
         if what == "ks" and kind == "standard" and ctx is None:
             with torch.no_grad():
                 big = obj.sample(4000, None, batch_size=[7, 64, 999, 4001][case["seed"] % 4])
